@@ -59,14 +59,22 @@ Definition model_msgs (ops : list op) (s : sub) (msgs : list content) : list con
       (map (msg_of s) (run s0 evs), pulled false evs && contents_eqb (writes evs) ws)
   end.
 
-Definition corr_sub (ops : list op) (s : sub) (o : sub_obs) : bool :=
+(** [fin]: convergence is demanded (the store was available: single node, or a quorum of the
+    members was up all the time).  Without [fin] only safety is checked. *)
+Definition corr_sub (fin : bool) (ops : list op) (s : sub) (o : sub_obs) : bool :=
   contents_eqb (model_states ops s) (o_states o) &&
-  (let '(m, ok) := model_msgs ops s (o_msgs o) in ok && contents_eqb m (o_msgs o)).
+  (if fin then
+     let '(m, ok) := model_msgs ops s (o_msgs o) in ok && contents_eqb m (o_msgs o)
+   else
+     match model_states ops s with
+     | [] => false
+     | s0 :: ws => check_trace false s0 ws (o_msgs o)
+     end).
 
-Definition prop_sub (o : sub_obs) : bool :=
+Definition prop_sub (fin : bool) (o : sub_obs) : bool :=
   match o_states o with
   | [] => false
-  | s0 :: ws => check_trace true s0 ws (o_msgs o)
+  | s0 :: ws => check_trace fin s0 ws (o_msgs o)
   end.
 
 Fixpoint zip_all {A B} (f : A -> B -> bool) (l1 : list A) (l2 : list B) : bool :=
@@ -116,13 +124,46 @@ Definition class_case (c : c19_case) : N :=
        + bN (existsb (fun o => has_aba (o_states o)) obs) 32)%N
   end.
 
-Definition check_sync (c : c19_case) : result :=
-  (negb (c_bad c) && zip_all (corr_sub (c_ops c)) (c_subs c) (c_obs c),
-   negb (c_bad c) && Nat.eqb (List.length (c_subs c)) (List.length (c_obs c)) && forallb prop_sub (c_obs c),
+Definition check_sync_fin (fin : bool) (c : c19_case) : result :=
+  (negb (c_bad c) && zip_all (corr_sub fin (c_ops c)) (c_subs c) (c_obs c),
+   negb (c_bad c) && Nat.eqb (List.length (c_subs c)) (List.length (c_obs c)) && forallb (prop_sub fin) (c_obs c),
    class_case c, 0%N).
+
+Definition check_sync (c : c19_case) : result := check_sync_fin true c.
+
+(** *** multi-member cluster on one host: the syncer lives on member 0, the harness stops and
+    starts the etcd servers of single members and writes through an independent client.
+    Model: the store is available iff a quorum of the members is up ([quorum]); the etcd client
+    of a member knows every member of the initial cluster ([all_members]), so its pulls keep
+    succeeding ([C19_all_endpoints_survive_minority_stop]) and convergence is demanded. *)
+Record multi_case := { m_case : c19_case;
+                       m_members : nat;     (* size of the initial cluster *)
+                       m_down : nat;        (* largest number of servers stopped at the same time *)
+                       m_endpoints : nat }. (* observed: endpoints of the client of member 0 *)
+
+Definition check_multi (m : multi_case) : result :=
+  let fin := quorum (m_members m) (m_down m) in
+  let '(corr, prop, cls, _) := check_sync_fin fin (m_case m) in
+  (corr && Nat.eqb (m_endpoints m) (List.length (all_members (m_members m))), prop,
+   (if fin then cls + 64 else cls)%N, 0%N).
+
+(** *** endpoint list of the etcd client built by cluster.getClient for a static initial cluster
+    (no server needed): it must cover every member, otherwise the client is pinned to a
+    subset and the syncer stops following the store when those servers are down although the
+    store keeps its quorum ([C19_refuted_single_endpoint]). *)
+Record ep_case := { e_members : nat; e_same_host : bool; e_endpoints : nat; e_covers : bool }.
+
+Definition check_endpoints (e : ep_case) : result :=
+  let ok := Nat.eqb (e_endpoints e) (List.length (all_members (e_members e))) && e_covers e in
+  (ok, ok, (if Nat.ltb 1 (e_members e) then (if e_same_host e then 2 else 1) else 0)%N, 0%N).
+
+Definition explain_endpoints (e : ep_case) := (List.length (all_members (e_members e)), true).
 
 (** for replay files: per subscription (model states, model messages, corr, prop) *)
 Definition explain_sync (c : c19_case) :=
   map (fun '(s, o) => (model_states (c_ops c) s, model_msgs (c_ops c) s (o_msgs o),
-                       corr_sub (c_ops c) s o, prop_sub o))
+                       corr_sub true (c_ops c) s o, prop_sub true o))
       (combine (c_subs c) (c_obs c)).
+
+Definition explain_multi (m : multi_case) :=
+  (quorum (m_members m) (m_down m), List.length (all_members (m_members m)), explain_sync (m_case m)).
